@@ -53,6 +53,275 @@ def check(p):
     return out, textual and not d
 
 
+# ---------------------------------------------------------------------------
+# proto -> IR -> (history of observations and of edits that are undone again) -> proto: the result must be the
+# proto of the plain round trip. Anything an accessor caches, a container forgets to release, or a query rewrites
+# shows as a difference although the IR "content" is the deserialised one.
+
+def _all_graphs(model):
+    out = [model.graph]
+    for n in model.graph.all_nodes():
+        for a in n.attributes.values():
+            if a.is_ref():
+                continue
+            if a.type == ir.AttributeType.GRAPH:
+                out.append(a.as_graph())
+            elif a.type == ir.AttributeType.GRAPHS:
+                out.extend(a.as_graphs())
+    return out
+
+
+def _all_values(model):
+    vs = []
+    for g in _all_graphs(model):
+        vs.extend(g.inputs)
+        vs.extend(g.initializers.values())
+        for n in g:
+            vs.extend(o for o in n.outputs)
+    for f in model.functions.values():
+        vs.extend(f.inputs)
+        for n in f.all_nodes():
+            vs.extend(n.outputs)
+    return vs
+
+
+def _intermediates(g):
+    return [o for n in g for o in n.outputs if o.name and not o.is_graph_output()]
+
+
+def n_display(m):
+    str(m)
+    repr(m)
+    for v in _all_values(m):
+        repr(v)
+        str(v)
+
+
+def n_shape_queries(m):
+    for v in _all_values(m):
+        sh = v.shape
+        if sh is None:
+            continue
+        for meth, args in (("free_symbols", ()), ("is_static", ()), ("is_dynamic", ()), ("evaluate", ({"N": 4, "batch": 2},)), ("simplify", ()), ("numpy", ()), ("has_unknown_dim", ())):
+            f = getattr(sh, meth, None)
+            if f is None:
+                continue
+            try:
+                f(*args)
+            except Exception:  # noqa: BLE001  a query may refuse (numpy() on a symbolic shape): still an observation
+                pass
+        for d in sh:
+            if isinstance(d, ir.SymbolicDim):
+                for meth in ("free_symbols", "simplify"):
+                    f = getattr(d, meth, None)
+                    if f is not None:
+                        try:
+                            f()
+                        except Exception:  # noqa: BLE001
+                            pass
+                try:
+                    d + 1  # noqa: B018  arithmetic builds a new dimension; the operand stays as it is
+                    d == d  # noqa: B015
+                    hash(d)
+                except Exception:  # noqa: BLE001
+                    pass
+
+
+def n_serialize(m):
+    ir.to_proto(m)
+
+
+def n_clone(m):
+    try:
+        m.clone()
+    except Exception:  # noqa: BLE001  cloning may refuse a model (C13 judges that); it must still not change it
+        pass
+
+
+def n_walk(m):
+    for n in m.graph.all_nodes():
+        n.op_identifier()
+        for v in n.inputs:
+            if v is not None:
+                v.uses()
+                v.consumers()
+                v.producer()
+    for v in _all_values(m):
+        v.is_graph_input(), v.is_graph_output(), v.is_initializer()
+
+
+def n_checker(m):
+    try:
+        ir.passes.common.CheckerPass()(m)
+    except Exception:  # noqa: BLE001  the baseline family contains models the checker rejects; it must still not change them
+        pass
+
+
+def _each_graph(fn):
+    def run(m):
+        for g in _all_graphs(m):
+            fn(g)
+    return run
+
+
+def _out_append_del(g):
+    for v in _intermediates(g)[:2]:
+        g.outputs.append(v)
+        del g.outputs[-1]
+
+
+def _out_append_pop(g):
+    for v in _intermediates(g)[:2]:
+        g.outputs.append(v)
+        g.outputs.pop()
+
+
+def _out_insert_del0(g):
+    for v in _intermediates(g)[:1]:
+        g.outputs.insert(0, v)
+        del g.outputs[0]
+
+
+def _out_append_remove(g):
+    for v in _intermediates(g)[:1]:
+        g.outputs.append(v)
+        g.outputs.remove(v)
+
+
+def _out_slice_restore(g):
+    old = list(g.outputs)
+    it = _intermediates(g)[:1]
+    g.outputs[:] = old + it
+    g.outputs[:] = old
+
+
+def _out_setitem_restore(g):
+    if not g.outputs:
+        return
+    it = _intermediates(g)[:1]
+    if not it:
+        return
+    old = g.outputs[-1]
+    g.outputs[-1] = it[0]
+    g.outputs[-1] = old
+
+
+def _in_append_del(g):
+    v = ir.Value(name="c02_tmp_input")
+    g.inputs.append(v)
+    del g.inputs[-1]
+
+
+def _node_add_remove(g):
+    if not len(g):
+        return
+    src = g[0].outputs[0]
+    n = ir.Node("", "Identity", [src], name="c02_tmp_node")
+    g.append(n)
+    g.remove(n, safe=True)
+
+
+def _input_swap_back(g):
+    for n in g:
+        if len(n.inputs) >= 1 and n.inputs[0] is not None and not n.device_configurations:  # a departing value takes its sharding spec along, by design
+            old = n.inputs[0]
+            other = next((v for v in g.inputs if v is not old), None)
+            if other is None:
+                return
+            n.replace_input_with(0, other)
+            n.replace_input_with(0, old)
+            return
+
+
+def _rename_back(g):
+    for v in _intermediates(g)[:2]:
+        old = v.name
+        v.name = "c02_tmp_name"
+        v.name = old
+
+
+def _attr_add_del(g):
+    for n in g:
+        n.attributes["c02_tmp_attr"] = ir.AttrInt64("c02_tmp_attr", 1)
+        del n.attributes["c02_tmp_attr"]
+        return
+
+
+def _meta_add_del(g):
+    for v in _intermediates(g)[:1]:
+        v.metadata_props["c02_tmp"] = "1"
+        del v.metadata_props["c02_tmp"]
+        v.meta["scratch"] = object()
+
+
+NEUTRAL = [
+    ("display", n_display), ("shape_queries", n_shape_queries), ("serialize", n_serialize), ("clone", n_clone), ("walk", n_walk), ("checker", n_checker),
+    ("outputs_append_del", _each_graph(_out_append_del)), ("outputs_append_pop", _each_graph(_out_append_pop)), ("outputs_insert_del0", _each_graph(_out_insert_del0)),
+    ("outputs_append_remove", _each_graph(_out_append_remove)), ("outputs_slice_restore", _each_graph(_out_slice_restore)), ("outputs_setitem_restore", _each_graph(_out_setitem_restore)),
+    ("inputs_append_del", _each_graph(_in_append_del)), ("node_add_remove", _each_graph(_node_add_remove)), ("input_swap_back", _each_graph(_input_swap_back)),
+    ("rename_back", _each_graph(_rename_back)), ("attr_add_del", _each_graph(_attr_add_del)), ("meta_add_del", _each_graph(_meta_add_del)),
+]
+
+
+def check_neutral(p, history):
+    """history: tuple of NEUTRAL labels. Returns violations."""
+    table = dict(NEUTRAL)
+    try:
+        want = gp.normalise(ir.to_proto(ir.from_proto(p)))
+    except Exception:  # noqa: BLE001  judged by the plain family
+        return []
+    q = onnx.ModelProto()
+    q.CopyFrom(p)
+    try:
+        m = ir.from_proto(q)
+        for h in history:
+            table[h](m)
+    except Exception as e:  # noqa: BLE001
+        return [("neutral_history_raises", f"{type(e).__name__}: {e}"[:200])]
+    try:
+        got = gp.normalise(ir.to_proto(m))
+    except Exception as e:  # noqa: BLE001
+        return [("serialization_raises_after_neutral_history", f"{type(e).__name__}: {e}"[:200])]
+    d = gp.proto_diff(want, got)
+    out = []
+    if d:
+        out.append(("neutral_history_changes_the_proto", d[:6]))
+    return out
+
+
+def _first_text_diff(a, b):
+    la, lb = str(a).splitlines(), str(b).splitlines()
+    for i, (x, y) in enumerate(zip(la, lb)):
+        if x != y:
+            return f"line {i}: {x.strip()!r} -> {y.strip()!r}"
+    return f"length {len(la)} -> {len(lb)}"
+
+
+def _neutral_work(task):
+    tier, lo, hi = task
+    import itertools
+    import logging
+
+    logging.disable(logging.CRITICAL)
+
+    items = list(gp.gen_models(tier, pairs=False))[lo:hi]
+    labels = [l for l, _ in NEUTRAL]
+    hists = [(a,) for a in labels] + [(a, b) for a, b in itertools.product(labels, repeat=2)]
+    found = {}
+    n = 0
+    for label, p in items:
+        for h in hists:
+            n += 1
+            for clause, detail in check_neutral(p, h):
+                pc = _path_class(detail) if clause == "neutral_history_changes_the_proto" else str(detail)[:60]
+                key = f"neutral|{clause}|{h[-1]}|{pc}"
+                if len(h) == 2 and any(k.startswith(f"neutral|{clause}|") and k.endswith(pc) and k.split("|")[2] in h for k in found):
+                    continue  # already reported for a single step of this history
+                found.setdefault(key, {"family": "model_neutral_history", "label": f"{label} history={list(h)}", "clause": clause, "detail": detail, "proto_text": str(p)[:1500],
+                                       "history": list(h), "proto_hex": p.SerializeToString().hex()})
+    return "model_neutral_history", n, n, found
+
+
 def _path_class(d):
     """Call-site class of a difference: the field path without indices."""
     import re
@@ -131,6 +400,8 @@ def main(tier):
         for lo in range(0, n, step):
             tasks.append((f, tier, lo, min(n, lo + step)))
     res = common.pmap(_work, common.shuffled(tasks, "c02"), chunksize=1)
+    nm = sum(1 for _ in gp.gen_models(tier, pairs=False))
+    res = list(res) + list(common.pmap(_neutral_work, [(tier, lo, lo + 1) for lo in range(nm)], chunksize=1))
     per = {}
     found = {}
     for fam, n, normalised, f in res:
@@ -141,7 +412,7 @@ def main(tier):
             found.setdefault(k, v)
     for key, f in sorted(found.items()):
         r.violation(key, f"{f['clause']} [{f['label']}]: {f['detail']}", {"engine": "E6", "input": {"family": f["family"], "label": f["label"], "proto_text": f["proto_text"]},
-                                                                         "oracle": f["clause"], "detail": f["detail"]})
+                                                                         "oracle": f["clause"], "detail": f["detail"], **({"history": f["history"], "proto_hex": f["proto_hex"]} if "history" in f else {})})
     total = sum(p[0] for p in per.values())
     r.sample({"family": "model", "label": "if_with_captures@10", "deviation_catalogue": [n for n, _ in gp.DEVIATIONS]})
     r.sample({"family": "tensor", "example": str(gp.tensor(onnx.TensorProto.INT4, [3], "int32_data"))[:200]})
@@ -158,6 +429,9 @@ def main(tier):
 
 def replay(obj):
     inp = obj["input"]
+    if obj.get("history"):
+        v = check_neutral(onnx.ModelProto.FromString(bytes.fromhex(obj["proto_hex"])), tuple(obj["history"]))
+        return (not [x for x in v if x[0] == obj["oracle"]]), v[:3]
     for label, p in _family(inp["family"], "thorough"):
         if label == inp["label"]:
             v, _ = check(p)
